@@ -45,8 +45,8 @@ package mkvs
 //@   loop 1 invariant db.GBatchCommits == old(db.GBatchCommits) && db.GBatchCommitsOK == old(db.GBatchCommitsOK)
 //@   loop 2 invariant db.GBatchCommits == old(db.GBatchCommits) && db.GBatchCommitsOK == old(db.GBatchCommitsOK)
 //@   loop 2 invariant len(log) == len(logAnns)
-//@   loop 2 invariant forall k string :: visited(k) && t.pendingWriteLog[k] != nil && (t.pendingWriteLog[k].value != nil || t.pendingWriteLog[k].existed) ==> (exists j int :: 0 <= j && j < len(log) && bytesId(log[j].Key) == bytesId(t.pendingWriteLog[k].key) && (log[j].Value == nil) == (t.pendingWriteLog[k].value == nil))
-//@   precall db/api\.Batch\)\.PutWriteLog$ :: len(log) == len(logAnns) && (forall k string :: inDom(t.pendingWriteLog, k) && t.pendingWriteLog[k] != nil && (t.pendingWriteLog[k].value != nil || t.pendingWriteLog[k].existed) ==> (exists j int :: 0 <= j && j < len(log) && bytesId(log[j].Key) == bytesId(t.pendingWriteLog[k].key) && (log[j].Value == nil) == (t.pendingWriteLog[k].value == nil)))
+//@   loop 2 invariant forall k string :: visited(k) && t.pendingWriteLog[k] != nil && (t.pendingWriteLog[k].value != nil || t.pendingWriteLog[k].existed) ==> (exists j int :: 0 <= j && j < len(log) && sameRef(arrOf(log[j].Key), arrOf(t.pendingWriteLog[k].key)) && sameRef(arrOf(log[j].Value), arrOf(t.pendingWriteLog[k].value)))
+//@   precall db/api\.Batch\)\.PutWriteLog$ :: len(log) == len(logAnns) && argIs(0, log) && argIs(1, logAnns)
 //@   note write log handed to the database: every pending entry that ends with a value, or ends removed but existed before, has a log entry with its key (a deletion iff it ends removed); only entries that never existed and end removed are dropped
 //@   note the batch holding the new nodes, the write log and the root is committed at most once, with the hash doCommit computed, and only after the caller's pre-commit hook accepted that hash; on every error return no batch commit succeeded
 
@@ -184,3 +184,20 @@ package mkvs
 //@   props C03
 //@   requires it != nil && it.tree != nil
 //@   ensures OvItClean(it)
+
+// ---- remote sync (C04): a fetched proof that does not contain the requested node is an error, never "absent" ----
+
+//@ ghost var GRemoteSyncs int
+
+//@ func cache.derefNodePtr
+//@   props C04
+//@   requires c != nil
+//@   ensures err == nil && GRemoteSyncs > old(GRemoteSyncs) ==> result0 != nil
+//@   note when the node had to be fetched from the remote peer (remoteSync was called) and no error is returned, a node is returned: a peer's proof that verifies but does not carry the requested node cannot make a present key look absent
+
+//@ func cache.remoteSync
+//@   props C04
+//@   requires c != nil && ptr != nil
+//@   precall ProofVerifier\)\.VerifyProof$ :: argIs(2, proof) && ((argAs[hash.Hash](1) == ptr.Hash && dstPtr == ptr) || (argAs[hash.Hash](1) == c.syncRoot.Hash && dstPtr == c.pendingRoot))
+//@   precall MergeVerifiedSubtree$ :: argIs(1, dstPtr) && argIs(2, subtree) && err == nil
+//@   note a fetched proof is verified against a hash this node already trusts - the hash of the pointer being dereferenced, or the hash of the sync root - and the verified subtree is merged at the corresponding pointer (the dereferenced pointer, or the pending root); nothing is merged before verification succeeded
